@@ -119,21 +119,21 @@ theorem padTo_eq_pad8 (n : Nat) : padTo 8 n = pad8 n := rfl
 
 theorem threadEntryOf_encode (t : V2Thread) (wf : t.WF) : threadEntryOf (encodeThread t) = some (toEntry t) := by
   obtain ⟨h1, h2, h3, h4, h5⟩ := wf
-  have hk : 20 - t.name.length = (19 - t.name.length) + 1 := by omega
   have e1 : (encodeThread t).take 8 = toLE 8 t.tid := by
     simp [encodeThread, List.take_append_of_le_length, toLE_length]
   have e2 : ((encodeThread t).drop 8).take 4 = toLE 4 t.pid := by
-    have : (encodeThread t).drop 8 = toLE 4 t.pid ++ (t.name ++ zeros (20 - t.name.length)) := by
+    have : (encodeThread t).drop 8 = toLE 4 t.pid ++ (t.name ++ t.fieldTail) := by
       unfold encodeThread; rw [List.drop_left' (toLE_length 8 _)]
     rw [this, List.take_left' (toLE_length 4 _)]
-  have e3 : ((encodeThread t).drop 12).take 20 = t.name ++ zeros (20 - t.name.length) := by
-    have : (encodeThread t).drop 12 = t.name ++ zeros (20 - t.name.length) := by
+  have e3 : ((encodeThread t).drop 12).take 20 = t.name ++ t.fieldTail := by
+    have : (encodeThread t).drop 12 = t.name ++ t.fieldTail := by
       unfold encodeThread
       rw [show (12 : Nat) = 8 + 4 from rfl, ← List.drop_drop, List.drop_left' (toLE_length 8 _),
         List.drop_left' (toLE_length 4 _)]
-    rw [this, List.take_of_length_le (by simp [zeros]; omega)]
+    rw [this, List.take_of_length_le (by rw [field_length t h4]; omega)]
   unfold threadEntryOf
-  rw [e3, hk, cstringOf_name _ _ h3 h5, e1, e2, leNat_toLE, leNat_toLE,
+  rw [e3, show t.name ++ t.fieldTail = t.name ++ 0 :: (t.junk ++ zeros (19 - t.name.length - t.junk.length)) from rfl,
+    cstringOf_name _ _ h3 h5, e1, e2, leNat_toLE, leNat_toLE,
     Nat.mod_eq_of_lt (by omega : t.tid < 256 ^ 8), Nat.mod_eq_of_lt (by omega : t.pid < 256 ^ 4)]
   rfl
 
